@@ -1,5 +1,5 @@
 (** C09 — pinned statements about the A-normalisation model (crates/compiler/src/anf.rs) *)
-From Goml Require Import Common.Base C09.Anf C09.Order C09.Proofs.
+From Goml Require Import Common.Base C09.Anf C09.Order C09.Proofs C09.Flat C09.FlatEq C09.Sem.
 Open Scope N_scope.
 
 (** For every lifted body and every start value of the temporary counter: the sequence of operations
@@ -18,6 +18,34 @@ Theorem anf_in_context_keeps_order :
 Proof. exact anf_keeps_order. Qed.
 Print Assumptions anf_in_context_keeps_order.
 
+(** Meaning. For every interpretation of literals, operations (construction, arithmetic, calls, trait-object calls,
+    spawning: anything with evaluated operands, free to print, update the heap or fail), truth of conditions and arm
+    selection: if the lifted body evaluates (left to right, within its fuel) to a value or to a run-time failure, the
+    A-normal form the model builds evaluates to the same value in the same final world, or fails in the same world, and
+    the registers agree except for the temporaries. Hypothesis [wfb]: no source name looks like a temporary and an
+    operand that is a variable is not re-bound by a later operand of the same operation (true of the trees goml builds:
+    locals carry unique ids; checked on every real function on every run). *)
+Theorem anf_preserves_meaning :
+  forall (val world : Type) (prim_val : str -> val) (tag_val : N -> val) (unit_val : val) (glob : str -> option val)
+         (oper : desc -> list val -> world -> option val * world) (truth : val -> option bool) (pat_match : imm -> val -> bool)
+         fs fa body n r w o,
+  eval_l val world prim_val tag_val unit_val glob oper truth pat_match fs body r w = Some o ->
+  (depth body <= fa)%nat -> wfb body = true ->
+  match o with
+  | OVal _ _ v r2 w2 =>
+      exists ra2, eva val world prim_val tag_val unit_val glob oper truth pat_match (fst (anf_fn fa body n)) r w (OVal _ _ v ra2 w2)
+                  /\ ext val r2 ra2
+  | OFail _ _ wf => eva val world prim_val tag_val unit_val glob oper truth pat_match (fst (anf_fn fa body n)) r w (OFail _ _ wf)
+  end.
+Proof. exact anf_fn_correct. Qed.
+Print Assumptions anf_preserves_meaning.
+
+(** the continuation-passing model is "wrap the bindings of the first-order description around the rest" *)
+Theorem anf_is_wrap_of_flat : forall fuel e n k,
+  anf fuel e n k = let '(bs, c, n1) := flat fuel e n in let (a, n2) := k c n1 in (wrap bs a, n2).
+Proof. exact anf_flat. Qed.
+Print Assumptions anf_is_wrap_of_flat.
+
 (** non-vacuity: f(g(1), if c { h(2) } else { 3 }) *)
 Definition ex_body : lexpr :=
   LCall (LVar [102]) [LCall (LVar [103]) [LPrim [49] 1]; LIf (LVar [99]) (LCall (LVar [104]) [LPrim [50] 1]) (LPrim [51] 1)].
@@ -33,3 +61,14 @@ Proof. split; [reflexivity|cbn; lia]. Qed.
 Example short_circuit_refuted :
   ord_a (fst (anf_fn 5 (LBin 4288100 (LPrim [102] 0) (LCall (LVar [110]) [])) 0)) = [EvOp (DCall 0); EvOp (DBin 4288100)].
 Proof. reflexivity. Qed.
+
+(** non-vacuity of [anf_preserves_meaning]: with numbers as values, a trace of operation arities as world, every name
+    a global and "1 is true", the example body evaluates (the if takes its then branch) and is well-formed *)
+Example ex_body_evaluates :
+  match eval_l N (list N) (fun _ => 1) (fun i => i) 0 (fun _ => Some 1)
+               (fun d vs w => (Some 1, N.of_nat (length vs) :: w)) (fun v => Some (v =? 1)) (fun _ _ => false)
+               10 ex_body (fun _ => None) [] with
+  | Some (OVal _ _ v _ w) => v = 1 /\ w = [3; 2; 2]
+  | _ => False
+  end /\ wfb ex_body = true.
+Proof. vm_compute. split; [split|]; reflexivity. Qed.
